@@ -497,4 +497,56 @@ theorem parseI_eq_parse (bytes : Str) : parseI bytes = liftRes (HttpHeaders.pars
       simp only [liftRes, Res.ok.injEq, ContentDisposition.mk.injEq, true_and]
       cases (paramsLoop rest none).1 <;> rfl
 
+/-! ### The error condition, stated without the model's helpers -/
+
+theorem skipWs_eq_dropWhile (s : Str) : HttpHeaders.skipWs s = s.dropWhile isWs := by
+  induction s with
+  | nil => simp [HttpHeaders.skipWs]
+  | cons b t ih =>
+    simp only [HttpHeaders.skipWs, List.dropWhile_cons]
+    split <;> simp [ih]
+
+theorem spanP_fst_eq_takeWhile (p : Nat → Bool) (s : Str) : (spanP p s).1 = s.takeWhile p := by
+  induction s with
+  | nil => simp [spanP]
+  | cons b t ih =>
+    simp only [spanP, List.takeWhile_cons]
+    split <;> simp [ih]
+
+/-- The disposition type token of a header value: skip leading ASCII whitespace, then take the
+longest run of bytes that are neither ASCII whitespace nor `;`. -/
+def typeToken (s : Str) : Str := (s.dropWhile isWs).takeWhile (fun b => !(isWs b || b = 59))
+
+/-- Parsing fails exactly when the type token is not `inline`, not `attachment` (case-insensitively)
+and not a non-empty RFC 7230 token. -/
+theorem parse_error_iff_token (s : Str) :
+    (∃ e, HttpHeaders.parse s = .error e) ↔
+      ¬ (eqIgnoreCase (typeToken s) (bs "inline") = true ∨ eqIgnoreCase (typeToken s) (bs "attachment") = true ∨
+          (typeToken s ≠ [] ∧ ∀ b ∈ typeToken s, isTchar b = true)) := by
+  unfold HttpHeaders.parse typeToken
+  rw [← skipWs_eq_dropWhile]
+  cases hs : HttpHeaders.skipWs s with
+  | nil =>
+    simp [eqIgnoreCase, bs]
+  | cons c t =>
+    simp only
+    rw [spanP_fst_eq_takeWhile]
+    generalize (c :: t).takeWhile (fun b => !(isWs b || b = 59)) = tok
+    unfold parseType
+    by_cases h1 : eqIgnoreCase tok (bs "inline") = true
+    · simp [h1]
+    · by_cases h2 : eqIgnoreCase tok (bs "attachment") = true
+      · simp [h1, h2]
+      · by_cases h3 : tok.isEmpty = true
+        · have : tok = [] := List.isEmpty_iff.mp h3
+          subst this
+          simp [eqIgnoreCase, bs]
+        · have hne : tok ≠ [] := fun e => h3 (List.isEmpty_iff.mpr e)
+          by_cases h4 : tok.all isTchar = true
+          · have : ∀ b ∈ tok, isTchar b = true := List.all_eq_true.mp h4
+            simp [h1, h2, h3, h4, hne]
+            exact this
+          · have : ¬ ∀ b ∈ tok, isTchar b = true := fun h => h4 (List.all_eq_true.mpr h)
+            simp [h1, h2, h3, h4, this]
+
 end Ruma.ScanCd
